@@ -469,6 +469,65 @@ func c01Eval(c c01Case) (ok bool, sig, detail string) {
 			return true, "", ""
 		}
 		return c01Roundtrip([]gts.Sequence{c01WithField(c.Field, c.Value)}, fmt.Sprintf("field %s = %q", c.Field, c.Value))
+	case "lists":
+		gb := c01Base()
+		items := []string{"i1", "i two", "i3"}[:c.N]
+		switch c.Field {
+		case "keywords":
+			gb.Fields.Keywords = append([]string{}, items...)
+		case "taxon":
+			gb.Fields.Source.Taxon = append([]string{}, items...)
+		case "dblink":
+			gb.Fields.DBLink = nil
+			for _, it := range items {
+				gb.Fields.DBLink = append(gb.Fields.DBLink, seqio.Pair{Key: "K" + it[:2], Value: it})
+			}
+		case "comments":
+			gb.Fields.Comments = nil
+			for _, it := range items {
+				gb.Fields.Comments = append(gb.Fields.Comments, it+"\n\nafter blank")
+			}
+		}
+		return c01Roundtrip([]gts.Sequence{gb}, fmt.Sprintf("%s list of %d items", c.Field, c.N))
+	case "refs":
+		mask, nref := c.N/10, c.N%10
+		gb := c01Base()
+		gb.Fields.References = nil
+		for k := 0; k < nref; k++ {
+			ref := seqio.Reference{Number: k + 1}
+			if mask&1 != 0 {
+				ref.Info = "(bases 1 to 24)"
+			}
+			if mask&2 != 0 {
+				ref.Authors = "Author,A. and\nAuthor,B."
+			}
+			if mask&4 != 0 {
+				ref.Group = "Consortium"
+			}
+			if mask&8 != 0 {
+				ref.Title = "A title"
+			}
+			if mask&16 != 0 {
+				ref.Journal = "Journal 1 (2), 3-4 (2001)"
+			}
+			if mask&32 != 0 {
+				ref.Xref = map[string]string{"PUBMED": "123"}
+			}
+			if mask&64 != 0 {
+				ref.Comment = "remark"
+			}
+			gb.Fields.References = append(gb.Fields.References, ref)
+		}
+		return c01Roundtrip([]gts.Sequence{gb}, fmt.Sprintf("%d references, sub-field mask %07b", nref, mask))
+	case "locus":
+		gb := c01Base()
+		gb.Fields.Molecule, gb.Fields.Topology = gts.Molecule(c.Value), gts.Topology(c.N)
+		// reference numbers of 1..6 digits, with and without an info string
+		gb.Fields.References = nil
+		for _, num := range []int{1, 9, 10, 99, 100, 999, 1000, 123456} {
+			gb.Fields.References = append(gb.Fields.References, seqio.Reference{Number: num, Info: "(bases 1 to 24)", Title: "t"}, seqio.Reference{Number: num, Title: "no info"})
+		}
+		return c01Roundtrip([]gts.Sequence{gb}, fmt.Sprintf("molecule %s topology %d, reference numbers of 1..6 digits", c.Value, c.N))
 	case "date":
 		gb := c01Base()
 		gb.Fields.Date = seqio.Date{Year: c.Y, Month: time.Month(c.M), Day: c.D}
@@ -634,76 +693,19 @@ func init() {
 			r.States.Add(int64(len(vals) * len(c01Fields)))
 			// lists and references
 			for n := 0; n <= 3; n++ {
-				gbk := func(mod func(*seqio.GenBank)) {
-					gb := c01Base()
-					mod(&gb)
-					r.Evals.Add(1)
-					if ok, sig, detail := c01Roundtrip([]gts.Sequence{gb}, fmt.Sprintf("list shapes n=%d", n)); !ok {
-						r.Fail(engine.Failure{Sig: sig, Case: c01Case{Kind: "lists", N: n}, Detail: detail, Size: 600})
-					}
+				for _, which := range []string{"keywords", "taxon", "dblink", "comments"} {
+					eval(c01Case{Kind: "lists", Field: which, N: n}, 600)
 				}
-				items := []string{"i1", "i two", "i3"}[:n]
-				gbk(func(g *seqio.GenBank) { g.Fields.Keywords = append([]string{}, items...) })
-				gbk(func(g *seqio.GenBank) { g.Fields.Source.Taxon = append([]string{}, items...) })
-				gbk(func(g *seqio.GenBank) {
-					g.Fields.DBLink = nil
-					for _, it := range items {
-						g.Fields.DBLink = append(g.Fields.DBLink, seqio.Pair{Key: "K" + it[:2], Value: it})
-					}
-				})
-				gbk(func(g *seqio.GenBank) {
-					g.Fields.Comments = nil
-					for _, it := range items {
-						g.Fields.Comments = append(g.Fields.Comments, it+"\n\nafter blank")
-					}
-				})
 			}
 			for mask := 0; mask < 128; mask++ {
 				for nref := 0; nref <= 2; nref++ {
-					gb := c01Base()
-					gb.Fields.References = nil
-					for k := 0; k < nref; k++ {
-						ref := seqio.Reference{Number: k + 1}
-						if mask&1 != 0 {
-							ref.Info = "(bases 1 to 24)"
-						}
-						if mask&2 != 0 {
-							ref.Authors = "Author,A. and\nAuthor,B."
-						}
-						if mask&4 != 0 {
-							ref.Group = "Consortium"
-						}
-						if mask&8 != 0 {
-							ref.Title = "A title"
-						}
-						if mask&16 != 0 {
-							ref.Journal = "Journal 1 (2), 3-4 (2001)"
-						}
-						if mask&32 != 0 {
-							ref.Xref = map[string]string{"PUBMED": "123"}
-						}
-						if mask&64 != 0 {
-							ref.Comment = "remark"
-						}
-						gb.Fields.References = append(gb.Fields.References, ref)
-					}
-					r.Evals.Add(1)
-					if ok, sig, detail := c01Roundtrip([]gts.Sequence{gb}, fmt.Sprintf("%d references, sub-field mask %07b", nref, mask)); !ok {
-						r.Fail(engine.Failure{Sig: sig, Case: c01Case{Kind: "refs", N: mask*10 + nref}, Detail: detail, Size: 650})
-					}
+					eval(c01Case{Kind: "refs", N: mask*10 + nref}, 650)
 				}
 			}
 			// molecules x topologies, reference numbers with 1..3 digits
-			for _, mol := range []gts.Molecule{gts.DNA, gts.RNA, gts.AA, gts.SingleStrandDNA, gts.DoubleStrandDNA} {
-				for _, topo := range []gts.Topology{gts.Linear, gts.Circular} {
-					gb := c01Base()
-					gb.Fields.Molecule, gb.Fields.Topology = mol, topo
-					gb.Fields.References[0].Number = 10
-					gb.Fields.References = append(gb.Fields.References, seqio.Reference{Number: 100, Info: "(sites)", Title: "t"}, seqio.Reference{Number: 1000, Info: "(sites)", Title: "t4"}, seqio.Reference{Number: 123456, Title: "t6"})
-					r.Evals.Add(1)
-					if ok, sig, detail := c01Roundtrip([]gts.Sequence{gb}, fmt.Sprintf("molecule %s topology %v", mol, topo)); !ok {
-						r.Fail(engine.Failure{Sig: sig, Case: c01Case{Kind: "locus", Value: string(mol)}, Detail: detail, Size: 660})
-					}
+			for _, mol := range []string{"DNA", "RNA", "AA", "ss-DNA", "ds-DNA"} {
+				for topo := 0; topo <= 1; topo++ {
+					eval(c01Case{Kind: "locus", Value: mol, N: topo}, 660)
 				}
 			}
 			// dates
@@ -842,10 +844,6 @@ func init() {
 			var c c01Case
 			if err := json.Unmarshal(raw, &c); err != nil {
 				return true, "", err.Error()
-			}
-			switch c.Kind {
-			case "lists", "refs", "locus":
-				return true, "", "composite case: re-run the check"
 			}
 			return c01Eval(c)
 		}})
